@@ -36,6 +36,7 @@ type worker struct {
 	lock    interface{}
 	holds   interface{} // connection whose mutex this worker holds (nil = none)
 	lastCon interface{} // connection of the last *.connlock point
+	lookupEpoch int     // removed[lastCon] when the goroutine arrived at that point
 	ended   bool
 	paniced bool
 	panMsg  string
@@ -53,11 +54,25 @@ type controller struct {
 	dead    map[interface{}]bool // connection mutexes left locked by a goroutine that panicked
 	rec     *recorder
 	waited  bool // some schedule entry named a goroutine that was waiting for a connection mutex
+	removed map[interface{}]int // per connection object: completed `remove` segments (nested in its mutex)
+	stale   bool                // a callback ran on a connection that was removed since the goroutine looked it up
 }
 
 var ctl *controller // nil outside a controlled run
 
-const watchdog = 3 * time.Second
+// watchdog: a released goroutine must report within this time.  When many cases block (a mutation
+// that really deadlocks), the timeout shrinks so that a run stays bounded; past tooManyBlocked the
+// adapter stops executing schedules (every further case answers `blocked-abort`).
+var timeouts int
+
+const tooManyBlocked = 400
+
+func watchdog() time.Duration {
+	if timeouts > 10 {
+		return 200 * time.Millisecond
+	}
+	return 3 * time.Second
+}
 
 // yield is called (through the hooks) by the running worker.
 func yield(point string, lock interface{}) {
@@ -100,12 +115,16 @@ func (c *controller) release(w *worker) bool {
 	var r report
 	select {
 	case r = <-c.reports:
-	case <-time.After(watchdog):
+	case <-time.After(watchdog()):
+		timeouts++
 		c.blocked = true
 		c.cur = nil
 		return false
 	}
 	c.cur = nil
+	if prevPoint == "remove.lock" && w.holds != nil {
+		c.removed[w.holds]++ // the nested remove segment has run
+	}
 	if r.w != w {
 		panic(fmt.Sprintf("scheduler: report from worker %d while %d was running", r.w.id, w.id))
 	}
@@ -113,6 +132,7 @@ func (c *controller) release(w *worker) bool {
 	switch r.point {
 	case "asm.connlock", "flush.connlock":
 		w.lastCon = r.lock
+		w.lookupEpoch = c.removed[r.lock]
 		w.holds = nil
 	case "cb":
 		w.holds = w.lastCon
@@ -209,7 +229,8 @@ func (c *controller) killAll() {
 			w.resume <- false
 			select {
 			case <-c.reports:
-			case <-time.After(watchdog):
+			case <-time.After(watchdog()):
+				timeouts++
 				c.cur = nil
 				return
 			}
